@@ -107,7 +107,7 @@ def fam_C10(tier, seed):
             b.con("Implies", cond=cond["c2"](a, c), xs=[o1])
         else:
             b.con("Or", xs=[o1, at["expr2"]()])
-        ps.append(b.done())
+        ps.append(dict(b.done(), keep=True))
     # a condition given as a plain Python bool (documented type: Union[z3.BoolRef, bool])
     for cv, n1, n2 in itertools.product(("pytrue", "pyfalse"), ("startAt", "prec", "expr2"), ("endBefore", "sync")):
         b = PB(H, tag="Implies-bool")
